@@ -14,6 +14,8 @@ import (
 var cmds = map[string]func([]string) int{
 	"mbox":    mbox.Main,
 	"b2f-c01": b2f.MainC01,
+	"b2f-c02": b2f.MainC02,
+	"b2f-c04": b2f.MainC04,
 	"posrep":  posrep.Main,
 	"url":     urlh.Main,
 }
